@@ -1,0 +1,46 @@
+// SPDX-FileCopyrightText: 2026 The Pion community <https://pion.ly>
+// SPDX-License-Identifier: MIT
+
+//go:build verif
+
+// Permission contracts (comment-only) for property C10: the state below is
+// owned by the agent's task loop and may only be read or written by code that
+// runs as a loop task (closures passed to loop.Run, the loop's onClose
+// callback, and everything called only from such code), or by the constructors
+// before the agent is shared.
+
+package ice
+
+//@ owner C10 ice.Agent.checklist loop
+//@ owner C10 ice.Agent.pairsByID loop
+//@ owner C10 ice.Agent.nextPairID loop
+//@ owner C10 ice.Agent.pendingBindingRequests loop
+//@ owner C10 ice.Agent.localCandidates loop
+//@ owner C10 ice.Agent.remoteCandidates loop
+//@ owner C10 ice.Agent.localUfrag loop
+//@ owner C10 ice.Agent.localPwd loop
+//@ owner C10 ice.Agent.remoteUfrag loop
+//@ owner C10 ice.Agent.remotePwd loop
+//@ owner C10 ice.Agent.connectionState loop
+//@ owner C10 ice.Agent.gatheringState loop
+//@ owner C10 ice.Agent.gatherCandidateCancel loop
+//@ owner C10 ice.Agent.gatherCandidateDone loop
+//@ owner C10 ice.Agent.lastRenominationTime loop
+//@ owner C10 ice.controllingSelector.nominatedPair loop
+//@ owner C10 ice.controllingSelector.startTime loop
+//@ owner C10 ice.controlledSelector.lastNomination loop
+//@ owner C10 ice.CandidatePair.state loop
+//@ owner C10 ice.CandidatePair.nominated loop
+//@ owner C10 ice.CandidatePair.nominateOnBindingSuccess loop
+
+// Constructors: the object is not shared yet.
+//@ ownerinit ice.Agent in createAgentBase, newAgentFromConfig, newAgentWithConfig, WithLocalCredentials
+//@ ownerinit ice.CandidatePair in newCandidatePair
+//@ ownerinit ice.controllingSelector in (*Agent).setSelector
+//@ ownerinit ice.controlledSelector in (*Agent).setSelector
+
+// Entry points reached from loop code only through dynamic dispatch (each
+// declaration is checked: all static callers must be loop-confined).
+//@ onloop (*Agent).handleInbound
+// String() of a pair is reached through fmt verbs of log statements inside loop code.
+//@ onloop (*CandidatePair).String
